@@ -407,7 +407,7 @@ func (c *FC) proveIndex(x ssa.Value, idx ssa.Value, at ssa.Instruction, plens ma
 			continue
 		}
 		if call, ok := bo.Y.(*ssa.Call); ok {
-			if bi, ok := call.Call.Value.(*ssa.Builtin); ok && bi.Name() == "len" && call.Call.Args[0] == x {
+			if bi, ok := call.Call.Value.(*ssa.Builtin); ok && bi.Name() == "len" && (call.Call.Args[0] == x || c.x.Of(call.Call.Args[0], call).String() == c.x.Of(x, at).String()) {
 				if nonNegativeCounter(idx) {
 					return true, "index is a counter from 0 tested against len of the same value"
 				}
